@@ -1,4 +1,5 @@
 import RedbModel.Model.Backend
+import RedbModel.Model.CloseGuard
 import Driver.Util
 /-! Line driver for the backend-contract automaton (property C20). -/
 namespace Redb.Driver
@@ -14,6 +15,28 @@ def parseCall (s : String) : Option Call :=
   else if k = "setlen" then some .setLen else if k = "sync_data" then some .sync
   else if k = "close" then some .close else none
 
+/-- `bk scenario close-race-<variant>-<kind>-<k>of<n> => <result>:parked=<p>:drop-ok=<d>:close-waited=<w>`:
+the forced schedule of the contract harness (reader parked between the latch test and the backend
+call while another thread drops the `Database`) replayed on the guarded interleaving model
+(`Redb.CloseGuard.raceReplay`, Props/C20.lean `c20_race_replay_guarded`). The model predicts: the
+closer has to wait iff the reader is parked, it can go on once the reader has left the backend, the
+reader's next call is refused (`err:DatabaseClosed`/`err:Storage…`, or `served:` if the parked call
+was its last one), nobody panics, and the backend sees no call after close (checked on the recorded
+stream that follows the scenario line). -/
+def closeRaceStep (name : String) (obs : List String) : String :=
+  let o := " ".intercalate obs
+  let fs := o.splitOn ":"
+  let flag (k : String) : Option Bool :=
+    if fs.contains (k ++ "=1") then some true else if fs.contains (k ++ "=0") then some false else none
+  match flag "parked", flag "drop-ok", flag "close-waited" with
+  | some parked, some dropOk, some waited =>
+    let m := Redb.CloseGuard.raceReplay .guarded parked
+    let modelOk := m.ran && m.closeRan && m.nextRefused && !Redb.CloseGuard.callAfterClose m.log
+    let resOk := o.startsWith "err:DatabaseClosed" || o.startsWith "err:Storage" || o.startsWith "served:"
+    if modelOk && waited == m.closeWaited && dropOk && resOk then "ok"
+    else s!"DIFF bk close-race {name}: model close-waited={if m.closeWaited then 1 else 0} next-call-refused={m.nextRefused} drop-ok=1, observed {o}"
+  | _, _, _ => "bad-op"
+
 def bkStep (st : BkState) (req obs : List String) : BkState × String :=
   match req with
   | ["begin", _, ro] => ({ readOnly := ro = "ro=1", calls := [] }, "ok")
@@ -25,6 +48,9 @@ def bkStep (st : BkState) (req obs : List String) : BkState × String :=
     match parseCall c, n.toNat? with
     | some c, some n => ({ st with calls := st.calls ++ [(c, n)] }, "ok")
     | _, _ => (st, "bad-op")
+  | "scenario" :: name :: _ =>
+    if name.startsWith "close-race-" then (st, closeRaceStep name obs)
+    else (st, if obs.isEmpty then "bad-op" else "ok")
   | "scenario" :: _ => (st, if obs.isEmpty then "bad-op" else "ok")
   | ["end", _, expect] =>
     if expect = "expect=1" then
